@@ -10,7 +10,7 @@
      checked     annotated_fcprog                         (every node carries its type after check)
      core        wt_core  +  pre_check, focus_wf          (preconditions of the focusing theorems)
      uniquified  wt_core
-     focused     wt_fs + unique_binders + ids_bounded;  also wt_core (embed_prog f) must agree
+     focused     wt_fs + unique_binders + ids_bounded + names_ok;  also wt_core (embed_prog f) must agree
      shrunk      AxCheck.check_prog (wt_ax)  +  LinCheck.prog_ok (hypothesis of the linearize theorem)
      linearized  LinCheck.lin_check_prog
      x86/a64/rv  a panic whose message is one of the documented capacity limits is accepted; if the
@@ -24,15 +24,25 @@
      VIOL class=call-to-main-typing <name> core: <why>      the known fun2core call-to-main defect (C02): ONLY when
                                  [calls_main_prog] holds of the source AND the first ill-typed stage is core
                                  AND the failure is the arity of a call of main
+     VIOL class=main-non-integer-result <name> core: <why>  the known finding main-non-integer-result: ONLY when the
+                                 declared return type of main is not i64 ([main_nonint]) AND the first ill-typed stage
+                                 is core AND the failure is the type of the operand of main's final exit
+     VIOL class=ill-typed-stage:core-inside-guard <name> ..  the source satisfies prog_tyguard (the hypothesis of theorem
+                                 C12_fun2core_preserves_typing_fragment2) and the REAL fun2core output is ill-typed:
+                                 would contradict the theorem (model/code mismatch)
+     VIOL class=ill-typed-stage:<stage>-inside-pipeline-guard ..  both hypotheses of theorem C12_pipeline_wt_source hold
+                                 (prog_tyguard and xtor_tys_guard of the SOURCE program) and a checker rejects a REAL stage
+                                 output: would contradict the theorem (model/code mismatch)
      VIOL class=ill-typed-stage:<stage> <name> <why>        any other failure of a checker
      VIOL class=internal-failure:<stage> <name> <panic message>    any non-capacity panic, any panic within capacity
-     OK k nt <risk> x86:<ok|ok-beyond|cap> a64:<..> rv:<ok|ok-beyond|cap|noprint> ctx<log2 max context> size<log2 nodes>
+     OK k nt <risk> <f2c-guard | f2c-noguard:why> <pipe-guard | pipe-noguard:which> x86:<ok|ok-beyond|cap> a64:<..> rv:<ok|ok-beyond|cap|noprint> ctx<log2 max context> size<log2 nodes>
         ok = within capacity and compiled; ok-beyond = compiled although outside the (sufficient)
         capacity predicate; cap = documented capacity panic outside the predicate *)
 From Coq Require Import List ZArith NArith String Bool.
 From SCC Require Import Base.Sexp Lang.SynUtil Lang.FunSyn Lang.CoreSyn Model.RunBase.
 From SCC Require Import Sem.FsCheck Sem.CoreCheck Model.FocusCheck Model.Fun2Core.
 From SCC Require Lang.AxSyn Sem.AxCheck Model.LinCheck Model.Capacity Model.RV Model.WtDefs.
+From SCC Require Import Lang.FunTy Model.Fun2CoreGuard Model.Fun2CoreTyGuard Model.FocusTyGuard Sem.FsFrag2.
 Import ListNotations.
 Open Scope string_scope.
 
@@ -81,6 +91,7 @@ Definition chk_focused (f : fsprog) : option string :=
   check_fs f
   ?> fensure (unique_binders f) "binders not unique along a path"
   ?> fensure (ids_bounded f) "an id exceeds max_id"
+  ?> fensure (FsFrag2.names_ok f) "two identifiers with the same id are spelled differently (contradicts theorem C12_focus_names_ok)"
   ?> match check_core (embed_prog f) with
      | None => None
      | Some m => Some ("wt_fs accepts but wt_core (embed_prog f) rejects: " ++ m)
@@ -119,6 +130,13 @@ Definition is_rebinding_message (why : string) : bool :=
      continuation (corpus/fun/c12_capture_share_dup.sc) *)
   || (prefix "def share_" why && contains ": duplicate parameter" why).
 
+(* finding main-non-integer-result: the declared return type of main is not i64 (Program::check does not
+   constrain it); compile_main then types the operand of the final `exit` with that type *)
+Definition main_nonint (p : fcprog) : bool :=
+  existsb (fun d => String.eqb (fdname d) "main" && negb (fty_eqb (fdret d) FI64)) (fcpdefs p).
+Definition is_exit_operand_message (why : string) : bool :=
+  prefix "def main: variable x" why && contains " where i64 is expected" why.
+
 Definition find_stage (name : string) (l : list sexp) : sexp :=
   match find (fun x => match x with L [A n; _] => String.eqb n name | _ => false end) l with
   | Some (L [_; v]) => v
@@ -128,11 +146,70 @@ Definition find_stage (name : string) (l : list sexp) : sexp :=
 Definition size_ax (p : AxSyn.prog) : N :=
   fold_left (fun acc d => acc + 1 + N.of_nat (List.length (LinCheck.binders (AxSyn.dbody d))))%N (AxSyn.pdefs p) 0%N.
 
-(* the witness of theorem C12_fun2core_typing_refuted is the real checked form of its corpus file *)
+(* the witnesses of theorems C12_fun2core_typing_refuted / C12_fun2core_main_result_refuted are the real checked
+   forms of their corpus files *)
 Fixpoint ends_with (suffix s : string) : bool :=
   String.eqb suffix s || match s with EmptyString => false | String _ r => ends_with suffix r end.
 Definition witness_ok (name : string) (p : fcprog) : bool :=
-  if ends_with "corpus/fun/c12_capture_illtyped.sc" name then fcprog_eqb p WtDefs.capture_typing_witness else true.
+  if ends_with "corpus/fun/c12_capture_illtyped.sc" name then fcprog_eqb p WtDefs.capture_typing_witness
+  else if ends_with "corpus/fun/c12_main_nonint.sc" name then fcprog_eqb p main_nonint_witness
+  else true.
+
+(* the innermost node at which [tg] fails (diagnosis only) *)
+Definition kids (G : cctx) (t : fterm) : list (cctx * fterm) :=
+  let cl := fun (c : fclause) => match c with FClause _ _ _ ctx body => (compile_ctx ctx ++ G, body)%list end in
+  match t with
+  | FVar _ _ _ | FLit _ => []
+  | FOp a _ b => [(G, a); (G, b)]
+  | FIfC _ a b t1 t2 _ => (G, a) :: (match b with Some b' => [(G, b')] | None => [] end) ++ [(G, t1); (G, t2)]
+  | FPrint _ a next _ => [(G, a); (G, next)]
+  | FLet v vty bound body _ => [(G, bound); (mkcb (new_id v) CPrd (compile_ty vty) :: G, body)]
+  | FCall _ args _ | FCtor _ args _ => map (fun y => (G, y)) (filter (fun y => negb (is_cns_var y)) args)
+  | FDtor scrut _ _ args _ => (G, scrut) :: map (fun y => (G, y)) (filter (fun y => negb (is_cns_var y)) args)
+  | FCase scrut _ cls _ => (G, scrut) :: map cl cls
+  | FNew cls _ => map cl cls
+  | FLabel l t' ty => [(match ty with Some ty0 => mkcb (new_id l) CCns (compile_ty ty0) :: G | None => G end, t')]
+  | FGoto _ t' _ | FExit t' _ | FParen t' => [(G, t')]
+  end.
+Definition node_name (t : fterm) : string :=
+  match t with
+  | FVar _ _ _ => "var" | FLit _ => "lit" | FOp _ _ _ => "op" | FIfC _ _ _ _ _ _ => "ifc" | FPrint _ _ _ _ => "print"
+  | FLet _ _ _ _ _ => "let" | FCall _ _ _ => "call" | FCtor _ _ _ => "ctor" | FDtor _ _ _ _ _ => "dtor"
+  | FCase _ _ _ _ => "case" | FNew _ _ => "new" | FLabel _ _ _ => "label" | FGoto _ _ _ => "goto"
+  | FExit _ _ => "exit" | FParen _ => "paren"
+  end.
+Fixpoint tg_diag (fuel : nat) (p : fcprog) (D C : list ctydecl) (G : cctx) (t : fterm) : string :=
+  match fuel with
+  | O => "fuel"
+  | S f =>
+      match find (fun gk => negb (tg p D C (fst gk) (snd gk))) (kids G t) with
+      | Some gk => tg_diag f p D C (fst gk) (snd gk)
+      | None =>
+          node_name t ++
+          match t with
+          | FCase _ _ cls _ | FNew cls _ =>
+              if negb (forallb (fun c => match c with FClause _ _ names ctx _ => list_eqb String.eqb names (fvars ctx) end) cls) then "-names"
+              else if negb (forallb (fun c => match c with FClause _ _ _ ctx _ => nodup_str (fvars ctx) end) cls) then "-dup"
+              else "-other"
+          | _ => ""
+          end
+      end
+  end.
+
+(* why a program is outside prog_tyguard (first failing component; tag of the OK line) *)
+Definition tyguard_why (p : fcprog) : string :=
+  if negb (decls_tyguard p) then "decls" else
+  let D := cdata_of p in let C := ccodata_of p in
+  match find (fun d => negb (def_tyguard p D C d)) (fcpdefs p) with
+  | None => "none"
+  | Some d =>
+      if negb (nodup_str (fvars (fdctx d))) then "dup-param"
+      else if negb (ctx_tyd D C (compile_ctx (fdctx d))) then "param-type-undeclared"
+      else if negb (tg p D C (compile_ctx (fdctx d)) (fdbody d))
+           then "body-typing-" ++ tg_diag 200 p D C (compile_ctx (fdctx d)) (fdbody d)
+      else if shadowing_risk (f_is_codata p) (fdbody d) [] then "shadow-risk"
+      else "result-type"
+  end.
 
 Definition wtstages_case (i r : sexp) : verdict :=
   match i, r with
@@ -166,19 +243,38 @@ Definition wtstages_case (i r : sexp) : verdict :=
             match snd br with Some o => Some ("rv", o) | None => None
             end end end end end end end end end in
           let risk := shadowing_risk_prog fp in
+          let g1 := prog_tyguard fp in
+          (* the hypotheses of theorem C12_pipeline_wt_source: two boolean guards on the SOURCE program *)
+          let g_xt := xtor_tys_guard fp in
+          let g2 := g1 && g_xt in
+          let pipe_tag := if g2 then " pipe-guard" else if negb g1 then " pipe-noguard:f2c" else " pipe-noguard:xtor-types" in
           match first with
           | Some (st, (true, why)) =>
+              (* theorem C12_fun2core_preserves_typing_fragment2 confronted with the real translation *)
+              if g1 && String.eqb st "core" && negb (contains "pre_check fails" why) && negb (contains "focus_wf fails" why)
+              then VViol ("class=ill-typed-stage:core-inside-guard " ++ name ++ " prog_tyguard holds but: " ++ trunc 300 why)
+              (* theorem C12_pipeline_wt confronted with the real stages: inside its guards no checker may fail
+                 (the comparison of wt_fs with wt_core of the embedding is not part of the theorem) *)
+              else if g2 && negb (String.eqb st "checked") && negb (contains "wt_core (embed_prog f) rejects" why)
+              then VViol ("class=ill-typed-stage:" ++ st ++ "-inside-pipeline-guard " ++ name ++ " the guards of C12_pipeline_wt_source hold but: " ++ trunc 300 why)
+              else
               if risk && String.eqb st "core" && is_rebinding_message why
               then VViol ("class=capture-under-binder " ++ name ++ " core: " ++ trunc 300 why)
               (* known finding call-to-main (C02): main is compiled without a return continuation, a call
                  of main passes one - the FIRST ill-typed stage is core and the failure is that call's arity *)
               else if calls_main_prog fp && String.eqb st "core" && contains "call main: wrong number of arguments" why
               then VViol ("class=call-to-main-typing " ++ name ++ " core: " ++ trunc 300 why)
+              (* known finding main-non-integer-result: the FIRST ill-typed stage is core and the failure is the
+                 type of the operand of main's final exit *)
+              else if main_nonint fp && String.eqb st "core" && is_exit_operand_message why
+              then VViol ("class=main-non-integer-result " ++ name ++ " core: " ++ trunc 300 why)
               else VViol ("class=ill-typed-stage:" ++ st ++ " " ++ name ++ " " ++ trunc 300 why)
           | Some (st, (false, msg)) =>
               VViol ("class=internal-failure:" ++ st ++ " " ++ name ++ " " ++ trunc 300 msg)
           | None =>
               VOk ("nt " ++ (if risk then "shadow-risk" else "no-shadow")
+                   ++ (if g1 then " f2c-guard" else " f2c-noguard:" ++ tyguard_why fp)
+                   ++ pipe_tag
                    ++ " " ++ fst bx ++ " " ++ fst ba ++ " " ++ fst br
                    ++ match lin with
                       | SVal a => " ctx" ++ n_to_string (N.log2 (N.of_nat (Capacity.max_ctx_prog a)))
